@@ -704,4 +704,93 @@ theorem parse_lit_ne_at (ns : List Str) (t : Str) : ∀ c, Item.lit c ∈ parse 
 theorem noAt_iff (s : Str) : noAt s = true ↔ '@' ∉ s := by
   simp [noAt]
 
+/-! ### `subst` depends on the variable list only through membership of names and `lookup` -/
+
+theorem prefix_eq_of_blen_eq {a b s : Str} (ha : a <+: s) (hb : b <+: s) (h : blen a = blen b) : a = b := by
+  rcases List.prefix_or_prefix_of_prefix ha hb with h1 | h1
+  · by_cases hne : a = b
+    · exact hne
+    · have := blen_lt_of_prefix_ne h1 hne; omega
+  · by_cases hne : a = b
+    · exact hne
+    · have := blen_lt_of_prefix_ne h1 (Ne.symm hne); omega
+
+theorem longest_eq_none_iff {ns : List Str} {s : Str} : longest ns s = none ↔ ∀ m ∈ ns, ¬ m <+: s := by
+  constructor
+  · exact longest_none
+  · intro h
+    cases hl : longest ns s with
+    | none => rfl
+    | some n => exact absurd (longest_some hl).2 (h n (longest_some hl).1)
+
+theorem longest_eq_some_iff {ns : List Str} {s n : Str} :
+    longest ns s = some n ↔ n ∈ ns ∧ n <+: s ∧ ∀ m ∈ ns, m <+: s → blen m ≤ blen n := by
+  constructor
+  · intro h; exact ⟨(longest_some h).1, (longest_some h).2, longest_max h⟩
+  · rintro ⟨hn, hp, hmax⟩
+    cases hl : longest ns s with
+    | none => exact absurd hp (longest_none hl n hn)
+    | some n' =>
+      have h1 := longest_max hl n hn hp
+      have h2 := hmax n' (longest_some hl).1 (longest_some hl).2
+      rw [prefix_eq_of_blen_eq (longest_some hl).2 hp (by omega)]
+
+theorem longest_congr {ns ns' : List Str} (h : ∀ m, m ∈ ns ↔ m ∈ ns') (s : Str) : longest ns s = longest ns' s := by
+  cases hl : longest ns s with
+  | none =>
+    symm; rw [longest_eq_none_iff]
+    intro m hm; exact longest_none hl m ((h m).mpr hm)
+  | some n =>
+    symm; rw [longest_eq_some_iff]
+    obtain ⟨h1, h2, h3⟩ := longest_eq_some_iff.mp hl
+    exact ⟨(h n).mp h1, h2, fun m hm => h3 m ((h m).mpr hm)⟩
+
+theorem parseAux_congr {ns ns' : List Str} (h : ∀ m, m ∈ ns ↔ m ∈ ns') (k : Nat) (t : Str) :
+    parseAux ns k t = parseAux ns' k t := by
+  induction t generalizing k with
+  | nil => cases k <;> simp [parseAux]
+  | cons c cs ih =>
+    cases k with
+    | succ k => simp only [parseAux]; exact ih k
+    | zero =>
+      simp only [parseAux, longest_congr h cs]
+      split
+      · split <;> simp [ih]
+      · simp [ih]
+
+theorem parse_congr {ns ns' : List Str} (h : ∀ m, m ∈ ns ↔ m ∈ ns') (t : Str) : parse ns t = parse ns' t :=
+  parseAux_congr h 0 t
+
+/-- Order and repetitions of the variable list do not matter for the simultaneous substitution. -/
+theorem subst_congr {vs vs' : List (Str × Str)} (hn : ∀ m, m ∈ names vs ↔ m ∈ names vs')
+    (hl : ∀ n, vs.lookup n = vs'.lookup n) (t : Str) : subst vs t = subst vs' t := by
+  unfold subst
+  rw [parse_congr hn t]
+  congr 1
+  apply List.map_congr_left
+  intro i _
+  cases i with
+  | ref n => simp [fill, hl n]
+  | _ => simp [fill]
+
+theorem noJoinP_congr (esc : Char → Str) {vs vs' : List (Str × Str)} (hn : ∀ m, m ∈ names vs ↔ m ∈ names vs')
+    (hl : ∀ n, vs.lookup n = vs'.lookup n) (is : List Item) (h : NoJoinP esc vs is) : NoJoinP esc vs' is := by
+  have hf : fill vs = fill vs' := by
+    funext i
+    cases i with
+    | ref n => simp [fill, hl n]
+    | _ => simp [fill]
+  induction is with
+  | nil => simp [NoJoinP]
+  | cons i is ih =>
+    cases i with
+    | lit c => simp only [NoJoinP] at h ⊢; exact ih h
+    | txt s => simp only [NoJoinP] at h ⊢; exact ih h
+    | stray =>
+      simp only [NoJoinP] at h ⊢
+      exact ⟨fun m hm => by rw [← hf]; exact h.1 m ((hn m).mpr hm), ih h.2⟩
+    | ref n =>
+      simp only [NoJoinP] at h ⊢
+      exact ⟨fun m hm => by rw [← hf]; exact h.1 m ((hn m).mpr hm), ih h.2⟩
+
 end Rio.Marker
